@@ -89,7 +89,19 @@ InvAfterPanicH(f) == IF cfg.obs THEN [f EXCEPT !.pc = "hdone"] ELSE [f EXCEPT !.
 InvAfterHStart(f) == [f EXCEPT !.pc = "enter"]
 InvStart(f) == IF cfg.obs THEN [f EXCEPT !.pc = "hstart"] ELSE InvAfterHStart(f)
 NewInv(r, p, async, pg, n, ctx) ==
-  [k |-> "inv", reg |-> r, pub |-> p, async |-> async, pc |-> "new", panicked |-> FALSE, pg |-> pg, n |-> n, ctx |-> ctx]
+  [k |-> "inv", reg |-> r, pub |-> p, async |-> async, pc |-> "new", panicked |-> FALSE, pg |-> pg, n |-> n, ctx |-> ctx,
+   live |-> ~IsCancelled(ctx)]       \* live: the context was not cancelled when the invocation was dispatched
+
+\* An asynchronous invocation whose context can be cancelled sits at pc "tctx" from its dispatch until either its first
+\* callback is observed - it passed the goroutine's context check, which (cancellation being permanent) is possible
+\* exactly if the context was live at dispatch - or a Wait / Shutdown needs it gone, which is possible exactly if the
+\* context is cancelled by then (the goroutine has skipped the handler, or will).  The choice is thereby made when
+\* the trace forces it, not guessed in advance.
+Started(f) == IF f.pc = "tctx" THEN InvStart(f) ELSE f
+MayStart(f) == f.pc = "tctx" => f.live
+Skippable(g) == IsTask(g) /\ Top(g).pc = "tctx" /\ IsCancelled(Top(g).ctx)
+\* what Wait / Shutdown have to wait for
+Pending == {g \in Tasks : ~Skippable(g)}
 
 SetTop(g, f) == stack' = [stack EXCEPT ![g] = Append(Below(g), f)]
 Push(g, f) == stack' = [stack EXCEPT ![g] = Append(@, f)]
@@ -111,7 +123,7 @@ CanCall(g) == /\ g \in Gs
                  \/ stack[g] # <<>> /\ Top(g).k = "inv" /\ Top(g).pc = "body"
 
 \* tasks whose handler body has not started yet
-WaitingTasks == {k \in Tasks : Top(k).pc \in {"tctx", "hstart", "enter"}}
+WaitingTasks == {k \in Tasks : Top(k).pc \in {"tctx", "hstart", "enter"} /\ ~Skippable(k)}
 
 (***************************************************************************)
 (* Ghost bookkeeping.                                                      *)
@@ -210,8 +222,9 @@ OpLin(g) ==
      \/ /\ o.op = "has" /\ done(Len(reg[o.t]) > 0) /\ UNCHANGED <<reg, attr, cancelled, gh>>
      \/ /\ o.op = "cancel" /\ cancelled' = cancelled \cup {o.ctx} /\ done("ok") /\ UNCHANGED <<reg, attr, gh>>
      \/ /\ o.op = "ctxerr" /\ done(IsCancelled(o.ctx)) /\ UNCHANGED <<reg, attr, cancelled, gh>>
-     \/ /\ o.op = "wait" /\ InFlight = 0 /\ done("ok")
-        /\ gh' = [gh EXCEPT !.bad = @ \cup Flag(gh.waitNeeds[g] \cap Tasks # {}, "waitEarly")]
+     \/ /\ o.op = "wait" /\ Pending = {}
+        /\ stack' = [h \in Gs \ Tasks |-> IF h = g THEN Append(Below(g), [f EXCEPT !.pc = "ret", !.res = "ok"]) ELSE stack[h]]
+        /\ gh' = [gh EXCEPT !.bad = @ \cup Flag(gh.waitNeeds[g] \cap Pending # {}, "waitEarly")]
         /\ UNCHANGED <<reg, attr, cancelled>>
   /\ UNCHANGED <<cfg, fired, seqHolder, closed, pubs, npub>>
 
@@ -235,9 +248,10 @@ ClearAllDone(g) ==
 \* internal: Shutdown's select.  Done branch: all async work finished; ctx branch: its context is done.
 ShutdownDone(g) ==
   /\ g \in Gs /\ stack[g] # <<>> /\ Top(g).k = "op" /\ Top(g).pc = "lin" /\ Top(g).o.op = "shutdown"
-  /\ InFlight = 0
-  /\ SetTop(g, [Top(g) EXCEPT !.pc = IF cfg.closer THEN "close" ELSE "ret", !.res = "nil"])
-  /\ gh' = [gh EXCEPT !.bad = @ \cup Flag(gh.waitNeeds[g] \cap Tasks # {}, "waitEarly")]
+  /\ Pending = {}
+  /\ stack' = [h \in Gs \ Tasks |-> IF h = g THEN Append(Below(g), [Top(g) EXCEPT !.pc = IF cfg.closer THEN "close" ELSE "ret", !.res = "nil"])
+                                    ELSE stack[h]]
+  /\ gh' = [gh EXCEPT !.bad = @ \cup Flag(gh.waitNeeds[g] \cap Pending # {}, "waitEarly")]
   /\ UNCHANGED <<cfg, reg, attr, fired, seqHolder, cancelled, closed, pubs, npub>>
 ShutdownCtx(g) ==
   /\ g \in Gs /\ stack[g] # <<>> /\ Top(g).k = "op" /\ Top(g).pc = "lin" /\ Top(g).o.op = "shutdown"
@@ -249,7 +263,7 @@ StoreClose(g) ==
   /\ g \in Gs /\ stack[g] # <<>> /\ Top(g).k = "op" /\ Top(g).pc = "close"
   /\ closed' = closed + 1
   /\ SetTop(g, [Top(g) EXCEPT !.pc = "ret"])
-  /\ gh' = [gh EXCEPT !.bad = @ \cup Flag(gh.waitNeeds[g] \cap Tasks # {}, "closedEarly")]
+  /\ gh' = [gh EXCEPT !.bad = @ \cup Flag(gh.waitNeeds[g] \cap Pending # {}, "closedEarly")]
   /\ UNCHANGED <<cfg, reg, attr, fired, seqHolder, cancelled, pubs, npub>>
 
 \* (E) return of an API call with result res
@@ -353,20 +367,19 @@ Dispatch(g) ==
             /\ UNCHANGED gh
   /\ UNCHANGED <<cfg, reg, attr, fired, seqHolder, cancelled, closed, pubs, npub>>
 
-\* internal: the spawned goroutine checks the context before it runs the handler
-TaskStart(g) ==
-  /\ g \in Gs /\ IsTask(g) /\ Top(g).pc = "tctx"
-  /\ IF IsCancelled(Top(g).ctx)
-     THEN stack' = [h \in Gs \ {g} |-> stack[h]]
-     ELSE SetTop(g, InvStart(Top(g)))
+\* internal (model checking only; the trace module lets Wait / Shutdown do it): a dispatched invocation whose context is
+\* cancelled by now is skipped by its goroutine
+TaskSkip(g) ==
+  /\ g \in Gs /\ Skippable(g)
+  /\ stack' = [h \in Gs \ {g} |-> stack[h]]
   /\ UNCHANGED <<cfg, reg, attr, fired, seqHolder, cancelled, closed, pubs, npub, gh>>
 
 InvAt(g, pc) == g \in Gs /\ stack[g] # <<>> /\ Top(g).k = "inv" /\ Top(g).pc = pc
 
 \* (E) Observability.OnHandlerStart
 ObsHandlerStart(g) ==
-  /\ InvAt(g, "hstart")
-  /\ SetTop(g, InvAfterHStart(Top(g)))
+  /\ g \in Gs /\ stack[g] # <<>> /\ Top(g).k = "inv" /\ MayStart(Top(g)) /\ Started(Top(g)).pc = "hstart"
+  /\ SetTop(g, InvAfterHStart(Started(Top(g))))
   /\ UNCHANGED <<cfg, reg, attr, fired, seqHolder, cancelled, closed, pubs, npub, gh>>
 
 \* Async invocations of r that the same goroutine dispatched earlier and that have not started yet (C07 FIFO)
@@ -389,8 +402,9 @@ SeqFree(g) ==
     /\ (FifoLock /\ Top(g).async) => EarlierWaiting(g) = {}
 
 \* the effect of starting the handler body of registration r for publish p
+AtEnter(g) == g \in Gs /\ stack[g] # <<>> /\ Top(g).k = "inv" /\ MayStart(Top(g)) /\ Started(Top(g)).pc = "enter"
 EnterBody(g, r, p) ==
-  /\ InvAt(g, "enter") /\ Top(g).reg = r /\ Top(g).pub = p
+  /\ AtEnter(g) /\ Top(g).reg = r /\ Top(g).pub = p
   /\ seqHolder' = IF attr[r].seq THEN (r :> g) @@ seqHolder ELSE seqHolder
   /\ SetTop(g, [Top(g) EXCEPT !.pc = "body"])
   /\ gh' = [gh EXCEPT
@@ -407,7 +421,7 @@ EnterBody(g, r, p) ==
   /\ UNCHANGED <<cfg, reg, attr, fired, cancelled, closed, pubs, npub>>
 
 \* (E) the handler body of registration r starts running for publish p
-Enter(g, r, p) == InvAt(g, "enter") /\ SeqFree(g) /\ EnterBody(g, r, p)
+Enter(g, r, p) == AtEnter(g) /\ SeqFree(g) /\ EnterBody(g, r, p)
 
 \* (E) the handler body returns (panicked = it panicked); a Sequential mutex is released
 Exit(g, r, p, panicked) ==
@@ -482,7 +496,7 @@ PubRet(g) ==
 InternalStep(g) ==
   \/ OpLin(g) \/ ClearAllDone(g) \/ ShutdownDone(g) \/ ShutdownCtx(g)
   \/ \E t \in Types : ClearAllStep(g, t)
-  \/ Snapshot(g) \/ Claim(g) \/ Dispatch(g) \/ TaskStart(g) \/ Retire(g)
+  \/ Snapshot(g) \/ Claim(g) \/ Dispatch(g) \/ Retire(g)
 
 \* ------------------------------------------------------------ properties
 TypeOK ==
